@@ -1232,3 +1232,90 @@ func ruleValidatorDecodesDeclared(c *core.Ctx, rule string) int {
 	}
 	return n
 }
+
+// ruleReferenceOfReturnedObject: a stub that answers with an object reference
+// builds it from the object it was given back — service id, object id and
+// meta-object all asked of that one proxy.  A reference assembled from another
+// source (the stub's own service id) designates another object as soon as the
+// implementation returns an object hosted elsewhere.
+func ruleReferenceOfReturnedObject(c *core.Ctx, rule string) {
+	n := 0
+	for _, fn := range c.RepoFuncs() {
+		if c.IsTestFile(fn) || c.InWitness(fn.Pos()) {
+			continue
+		}
+		root := fn
+		for root.Parent() != nil {
+			root = root.Parent()
+		}
+		if root.Signature.Recv() == nil || len(implCalls(root)) == 0 {
+			continue
+		}
+		for _, b := range fn.Blocks {
+			for _, in := range b.Instrs {
+				al, ok := in.(*ssa.Alloc)
+				if !ok {
+					continue
+				}
+				pt, _ := al.Type().(*types.Pointer)
+				if pt == nil || !core.TypeIs(pt.Elem(), "type/object", "ObjectReference") {
+					continue
+				}
+				if _, isNamed := pt.Elem().(*types.Named); !isNamed {
+					continue
+				}
+				st, _ := pt.Elem().Underlying().(*types.Struct)
+				// the values given to ServiceID and ObjectID
+				vals := map[string]ssa.Value{}
+				for _, r := range core.Referrers(al) {
+					fa, ok := r.(*ssa.FieldAddr)
+					if !ok || st == nil || fa.Field >= st.NumFields() {
+						continue
+					}
+					for _, u := range core.Referrers(fa) {
+						if s, ok := u.(*ssa.Store); ok && s.Addr == ssa.Value(fa) {
+							vals[st.Field(fa.Field).Name()] = s.Val
+						}
+					}
+				}
+				sv, ov := vals["ServiceID"], vals["ObjectID"]
+				if sv == nil || ov == nil {
+					continue
+				}
+				n++
+				key := fmt.Sprintf("%s/reference#%d", core.FuncKey(root), n)
+				asked := func(v ssa.Value, method string) ssa.Value {
+					cr, _ := core.CallResult(core.Canon(v))
+					if cr == nil || !cr.Common().IsInvoke() || cr.Common().Method.Name() != method {
+						return nil
+					}
+					return cr.Common().Value
+				}
+				sOf, oOf := asked(sv, "ServiceID"), asked(ov, "ObjectID")
+				bad := ""
+				switch {
+				case oOf == nil:
+					bad = "the object id of the reference is not asked of a proxy"
+				case sOf == nil:
+					bad = "the object id is the returned object's, the service id is taken from somewhere else (" + core.Canon(sv).String() + ")"
+				default:
+					// both asked of the same proxy: x.Proxy().ServiceID() / x.Proxy().ObjectID()
+					ownerOf := func(v ssa.Value) ssa.Value {
+						if cr, _ := core.CallResult(core.Canon(v)); cr != nil && cr.Common().IsInvoke() && cr.Common().Method.Name() == "Proxy" {
+							return core.Canon(cr.Common().Value)
+						}
+						return core.Canon(v)
+					}
+					if ownerOf(sOf) != ownerOf(oOf) && !core.SameValue(ownerOf(sOf), ownerOf(oOf)) {
+						bad = "service id and object id are asked of two different objects"
+					}
+				}
+				c.Check(bad == "", rule, key, al.Pos(), "service id and object id of the reference are asked of the one object it designates",
+					"an object reference names (service, object): "+bad+" — a returned object hosted by another service is designated wrongly, the caller's proxy talks to another object or to none")
+			}
+		}
+	}
+	if n == 0 {
+		c.Undecided(rule, "object references built by stubs", token.NoPos, "no stub building an object reference found")
+	}
+}
